@@ -217,6 +217,16 @@ func genMuxCfg(r *Run, g *muxGen) *muxCfg {
 		p := videoParamVariant(kind, T.Intn(16))
 		ts := &trackSpec{kind: kind, video: true, clock: 90000, initial: p}
 		ts.t = newVideoTrack(kind, p)
+		// attributes that only mean something for audio renditions may be set on the video track as well
+		if T.Chance(1, 5) {
+			ts.t.IsDefault = true
+		}
+		if T.Chance(1, 8) {
+			ts.t.Name = "main picture"
+		}
+		if T.Chance(1, 8) {
+			ts.t.Language = "en"
+		}
 		specs = append(specs, ts)
 	}
 	anyDefault := false
